@@ -193,6 +193,12 @@ func (self *visitorUserNode) OnBool(v bool) error {
 	if self.globalFieldDesc == nil && top.typ == arrStkType {
 		fieldDesc = top.state.fieldDesc
 	}
+	if err = self.checkScalar(fieldDesc); err != nil {
+		return err
+	}
+	if fieldDesc.Kind() != proto.BoolKind {
+		return newError(meta.ErrDismatchType, "param isn't boolType", nil)
+	}
 
 	// packed list no need to write tag
 	if !fieldDesc.Type().IsList() {
@@ -211,6 +217,19 @@ func (self *visitorUserNode) OnBool(v bool) error {
 	return err
 }
 
+// checkScalar reports whether a scalar JSON value may stand where the parser is: as the value of a
+// singular field or map value, or as an element of an array.
+func (self *visitorUserNode) checkScalar(fieldDesc *proto.FieldDescriptor) error {
+	if fieldDesc == nil || fieldDesc.Type() == nil {
+		return newError(meta.ErrDismatchType, "unexpected scalar value", nil)
+	}
+	if self.globalFieldDesc != nil && fieldDesc.Type().IsList() {
+		// inside an array globalFieldDesc is nil: here the scalar is the member value itself
+		return newError(meta.ErrDismatchType, fmt.Sprintf("field '%s' is repeated, param isn't an array", fieldDesc.Name()), nil)
+	}
+	return nil
+}
+
 // Parse stringType/bytesType
 func (self *visitorUserNode) OnString(v string) error {
 	if self.inskip {
@@ -222,6 +241,9 @@ func (self *visitorUserNode) OnString(v string) error {
 	fieldDesc := self.globalFieldDesc
 	if fieldDesc == nil && top != nil && top.Type().IsList() {
 		fieldDesc = top
+	}
+	if err = self.checkScalar(fieldDesc); err != nil {
+		return err
 	}
 
 	if err = self.p.AppendTagByKind(fieldDesc.Number(), fieldDesc.Kind()); err != nil {
@@ -262,6 +284,9 @@ func (self *visitorUserNode) OnInt64(v int64, n json.Number) error {
 	// case PackedList(List<int32/int64/...), get fieldDescriptor from Stack
 	if self.globalFieldDesc == nil && top.typ == arrStkType {
 		fieldDesc = top.state.fieldDesc
+	}
+	if err = self.checkScalar(fieldDesc); err != nil {
+		return err
 	}
 
 	// packed list no need to write tag
@@ -357,6 +382,9 @@ func (self *visitorUserNode) OnFloat64(v float64, n json.Number) error {
 	if self.globalFieldDesc == nil && top.typ == arrStkType {
 		fieldDesc = top.state.fieldDesc
 	}
+	if err = self.checkScalar(fieldDesc); err != nil {
+		return err
+	}
 
 	// packed list no need to write tag
 	if !fieldDesc.Type().IsList() {
@@ -416,6 +444,11 @@ func (self *visitorUserNode) OnObjectBegin(capacity int) error {
 	}
 
 	if fieldDesc != nil {
+		t := fieldDesc.Type()
+		inList := self.globalFieldDesc == nil
+		if (inList && !(t.IsList() && t.Elem().Type() == proto.MESSAGE)) || (!inList && !t.IsMap() && t.Type() != proto.MESSAGE) {
+			return newError(meta.ErrDismatchType, fmt.Sprintf("field '%s' isn't messageType or mapType", fieldDesc.Name()), nil)
+		}
 		if fieldDesc.Type().IsMap() {
 			// case Map, push MapDesc
 			if err = self.push(true, false, false, fieldDesc, curNodeLenPos); err != nil {
@@ -577,6 +610,9 @@ func (self *visitorUserNode) OnArrayBegin(capacity int) error {
 	var err error
 	curNodeLenPos := -1
 	if self.globalFieldDesc != nil {
+		if !self.globalFieldDesc.Type().IsList() {
+			return newError(meta.ErrDismatchType, fmt.Sprintf("field '%s' isn't repeated", self.globalFieldDesc.Name()), nil)
+		}
 		// PackedList: encode Tag、Len
 		if self.globalFieldDesc.Type().IsPacked() {
 			if err = self.p.AppendTag(self.globalFieldDesc.Number(), proto.BytesType); err != nil {
